@@ -617,6 +617,19 @@ def check_block_ids(run, prog):
     except RaiseEx as e:
         ok, why = False, f'raises {e}'
     run.check(ok, 'D4', 'BlockIdExt.__hash__', why, prog.where(prog.method('BlockIdExt', '__hash__')))
+    # the short block id is usable as a dictionary key / set member as well (ids are what lookups are keyed by)
+    if prog.cls('BlockId', required=False) is not None:
+        it3 = Interp(prog)
+        try:
+            bid = it3.construct(prog.cls('BlockId'), [K(-1), K(-(1 << 63)), K(7)], {})
+            d_ = DictV()
+            it3.setitem(d_, bid, K(1))
+            got_ = it3.getitem(d_, bid, None)
+            ok = isinstance(got_, K) and got_.v == 1
+            why = 'a BlockId is a dictionary key' if ok else f'lookup of a BlockId used as a key gives {vrepr(got_)}'
+        except RaiseEx as e:
+            ok, why = False, f'a BlockId cannot be used as a dictionary key: raises {e}'
+        run.check(ok, 'D4', 'BlockId.__hash__', why, prog.where(prog.cls('BlockId')) if hasattr(prog.cls('BlockId'), 'node') else w)
     # equal ids are one dictionary key, whatever route built them (bytes / hex text, shard None / -2^63, from_bytes, from_dict)
     it4 = Interp(prog)
     rh, fh = bytes(range(32)), bytes(range(32, 64))
